@@ -58,6 +58,20 @@ def _grammar(tier):
             if tier == "thorough" or (a % 3 == 0):
                 out.append("8.5.2018 {}-{}".format(a, b))
                 out.append("tomorrow {}:00 to {}:00".format(a, b))
+    # date-time to date-time ranges in every order (a backwards range must never come out as an interval)
+    dts = ["{} {}".format(d, t) for d in ("5.5.2020", "6.5.2020", "31.12.2020", "1.1.2021") for t in ("8:00", "9:00", "18:30", "19:00")]
+    for a in dts:
+        for b in dts:
+            out.append("{} - {}".format(a, b))
+    # part of day + date + clock range (the part-of-day rule shifts hours of an already dated range)
+    for pod in (("abends", "afternoon") if tier == "quick" else ("abends", "morgens", "nachmittags", "evening", "afternoon", "night")):
+        for a in hours:
+            for b in hours:
+                if tier == "thorough" or (a % 3 == 1 and b % 2 == 0) or (a, b) in ((10, 2), (11, 1), (9, 5)):
+                    out.append("{} 5.3.2020 {}-{}".format(pod, a, b))
+                    if tier == "thorough" or a % 4 == 2:
+                        out.append("5.3.2020 {} {}-{}".format(pod, a, b))
+                        out.append("tomorrow {} {}:00 - {}:00".format(pod, a, b))
     mods = list(dict.fromkeys(m for m in ("early", "late", "very early", "very late", "sehr früh", "spät")))
     pods = [alts[0] for _, alts in vocab.pods()] + ["morning", "afternoon", "evening", "night", "noon"]
     pods = list(dict.fromkeys(pods))
